@@ -167,6 +167,25 @@ CLAIMED = {
              "native code generator is covered end-to-end only.",
         design_ref="§5 C34",
     ),
+    "C22": dict(
+        category="proof",
+        technique="Lean 4 proofs of the filter contracts on list models (partition, sizes, first occurrences, sorted "
+                  "stable permutation, grouping, extrema, sum) + differential runs of the real filters (sync/async, "
+                  "lists/generators/async generators) against the models",
+        text="Theorems (Props/C22.lean), for all lists and arguments: slice without fill concatenates to the input, has n "
+             "slices of size floor(len/n) (+1 for the first len mod n), fill goes exactly to the short slices and to none "
+             "when the input divides evenly; batch concatenates to the input, all batches but the last have n items, with "
+             "fill all have n; unique is a subsequence with distinct keys covering every key and keeps the first item; sort "
+             "is a key-ordered permutation, stable, also with reverse (equal keys keep input order); groupby partitions the "
+             "key-sorted input into non-empty groups of equal key; min/max return an item bounding all items; sum = start "
+             "+ items. Tie: exhaustive lengths 0-7/0-10 x sizes 1-8 x fill; all key lists of length <4/<5 over mixed-case "
+             "keys + random lists, case sensitivity, reverse, rendered through the real filters in sync and async "
+             "environments; 17 further filter forms compared with their Python definitions.",
+        note="Trusted: Lean kernel; hand model Model/FiltColl.lean; Python's sorted() = stable merge sort, str order = "
+             "code-point order (ASCII keys); sort theorems assume a total transitive order; the 'Python definition' filters "
+             "(reverse, first, last, length, list, join, map, select, reject, selectattr, rejectattr) are correspondence only.",
+        design_ref="§5 C22",
+    ),
 }
 
 NOT_YET = "not yet decided by the Lean model in this revision (machinery for it is not built; see DESIGN.md §8 build order)"
